@@ -36,17 +36,23 @@ CHECKS = {
         "CP / positive / quantum-channel verdicts proved equal to the eigenvalue test of the oracle's Choi matrix; choi_rank / is_extremal arguments. "
         "Constructors with symbolic parameters act by their textbook formula through the real apply_channel, CP on the admissible range by eigen-certificate, "
         "sqrt-parameterised Kraus constructors complete, consistent across forms and rejecting exactly outside [0,1]."),
+ "C10": dict(engine="sdpcap", category="translation_validation", design_ref="DESIGN.md §3 C10, §2.2",
+   technique="capture of the picos program built by the real code, exact affine extraction, z3 proof of equality with the textbook program for all decision-variable values (PSD as uninterpreted predicate), numeric replay with the real solver; symbolic execution of the numpy glue",
+   note="instance data concrete (dyadic family stated in evidence.bounds); picos' own expression evaluation trusted for extraction; textbook strong duality and the conic solver trusted; z3 5.1.0",
+   text="Per instance of the stated family and each of the four strategy/formulation combinations, the captured program equals the textbook min-error / unambiguous "
+        "primal or dual program (objective, every constraint, sense) for all values of the decision variables; primal/dual agreement reduces to that plus textbook duality. "
+        "to_density_matrix / Gram-matrix glue proved for symbolic vectors."),
 }
 NOT_BUILT = "check not built yet in this round (planned per DESIGN.md §3); nothing is claimed"
 NA = {f"C{i:02d}": NOT_BUILT for i in range(1, 21) if f"C{i:02d}" not in CHECKS}
 
 ENGINES = [
- {"name": "symnp", "path": "symnp/", "serves_properties": sorted(CHECKS),
+ {"name": "symnp", "path": "symnp/", "serves_properties": [k for k, v in CHECKS.items() if v["engine"] == "symnp"],
   "kind_free_text": "E1: symbolic execution of the real numpy code on object arrays of z3-backed scalars (polynomial normal form, monomial abstraction), decision-replay path exploration, z3 discharge, numeric replay"},
- {"name": "sdpcap", "path": "sdpcap/", "serves_properties": [],
+ {"name": "sdpcap", "path": "sdpcap/", "serves_properties": [k for k, v in CHECKS.items() if v["engine"] == "sdpcap"],
   "kind_free_text": "E2: capture of the cvxpy/picos program the real code builds, exact affine extraction on a basis, z3 obligations T1/T2/T3"},
 ]
-NOTES = ("fix: commits in /repo: cb7d15f, 497f2e2 (C01), 03de9a5, c7b010c (C06); see known_findings.json 'fixed'. "
+NOTES = ("fix: commits in /repo: cb7d15f, 497f2e2 (C01), 03de9a5, c7b010c (C06), b47dfd5 (C10); see known_findings.json 'fixed'. "
          "Exit codes: 0 held / 1 VIOLATION (reproduced on the real code) / 2 harness error.")
 
 checks = []
